@@ -374,8 +374,10 @@ func decodeByteArray(s *Stream, val reflect.Value) error {
 		if vlen > 1 {
 			return &decodeError{msg: "input string too short", typ: val.Type()}
 		}
-		bv, _ := s.Uint()
-		val.Index(0).SetUint(bv)
+		// s.Uint() refuses the zero byte and leaves it in the stream. Then the next value decoding would read it again
+		bv := s.byteval
+		s.kind = -1 // rearm Kind
+		val.Index(0).SetUint(uint64(bv))
 	case String:
 		if uint64(vlen) < size {
 			return &decodeError{msg: "input string too long", typ: val.Type()}
